@@ -1,5 +1,6 @@
 import ErbiumModel.Lemmas.DhcpWire
 import ErbiumModel.Lemmas.DhcpDecoded
+import ErbiumModel.Lemmas.DhcpOctets
 import ErbiumModel.Lemmas.Frame
 import ErbiumModel.Lemmas.FrameValid
 import ErbiumModel.Generated.Dhcp
@@ -82,6 +83,11 @@ theorem C12_frame_valid (u : Frame.Udp4) (h : Frame.WfU u) :
     Spec.FrameRfc.validFrame u (Frame.frame u) = none :=
   Frame.frame_valid u h
 
+/-- (b'') every element of the frame is an octet (nothing written into the headers exceeds its field) -/
+theorem C12_frame_is_octets (u : Frame.Udp4) (h : Frame.WfU u) (hsm : ∀ b ∈ u.smac, b < 256)
+    (hdm : ∀ b ∈ u.dmac, b < 256) : ∀ b ∈ Frame.frame u, b < 256 :=
+  Frame.frame_octets u h hsm hdm
+
 /-- (c) **Broadcast bit**: for all 65536 flag values the test is the most significant bit. -/
 theorem C12_broadcast_iff_msb : ∀ f : Fin 65536, broadcastFlag f.val = decide (f.val ≥ 0x8000) := by
   -- all 65536 values, enumerated by the kernel through binary splitting (`Enum.checkRange`)
@@ -120,6 +126,15 @@ theorem C12_decode_encode_decode (pkt : List Nat) (hb : ∀ b ∈ pkt, b < 256) 
     (h : DhcpWire.parse pkt = .ok m) : DhcpWire.parse (DhcpWire.serialise m) = .ok m :=
   DhcpWire.parse_serialise_parse pkt hb m h
 
+/-- (a4) **No length octet wraps**: every element the encoder writes is an octet, for option values of
+    *any* length — the implementation's `len as u8` (and every other narrowing in `serialise`) never
+    sees a value of 256 or more, because long values are split at 255. The model computes over `Nat`,
+    so an encoder that wrote `v.length` for a 300-octet value would make this theorem false. -/
+theorem C12_encoding_is_octets (m : DhcpWire.Dhcp) (hch : DhcpWire.Octets m.chaddr) (hsn : DhcpWire.Octets m.sname)
+    (hfi : DhcpWire.Octets m.file) (hopt : ∀ e ∈ m.options, e.1 < 256 ∧ DhcpWire.Octets e.2) :
+    ∀ b ∈ DhcpWire.serialise m, b < 256 :=
+  DhcpWire.serialise_octets m hch hsn hfi hopt
+
 /-! Non-vacuity: concrete instances of the hypotheses. -/
 def exampleMsg : DhcpWire.Dhcp :=
   { op := 2, htype := 1, hlen := 6, hops := 0, xid := 0xdeadbeef, secs := 0,
@@ -138,5 +153,8 @@ example : Frame.WfU exampleUdp := by
 /-- the decoder does accept octet strings: the encoding of `exampleMsg` is one -/
 example : DhcpWire.parse (DhcpWire.serialise exampleMsg) = .ok exampleMsg :=
   C12_roundtrip exampleMsg (by constructor <;> simp [exampleMsg, DhcpWire.OptsWf])
+
+example : (∀ e ∈ exampleMsg.options, e.1 < 256 ∧ DhcpWire.Octets e.2) ∧ DhcpWire.Octets exampleMsg.chaddr := by
+  simp [exampleMsg, DhcpWire.Octets]
 
 end Erbium.Props.C12
